@@ -35,7 +35,7 @@ for p in sorted(glob.glob('tools/refactors/*.patch')):
     d = desc(p).replace('behaviour-preserving refactor — every check must stay silent: ', '')
     out.append(f"| {n} | {d} | {'not run' if not r else (' '.join(r['caught']) or 'none (all 18 checks exit 0)')} |")
 out.append('\n### 10.7 Independent seeded changes (`seeded/<id>/`)\n')
-out.append('Produced by sub-agents that were given one property\'s text and a scratch worktree only (round 1: two changes per property, ids `Cxx-A/B`;\nround 2: three per property, ids `Cxx-A2/B2/C2`, told which mechanisms had already been tried and asked for harder ones;\nround 3: three more for C02, C05 and C06, ids `Cxx-A3/B3/C3`, additionally told which *kinds* of change had proved easy).\nRound 1 was run against all 18 checks, round 2 against the property\'s own check and three neighbours; all at a quarter of the quick budgets. Every change was confirmed\nwith `tools/confirm_seed.sh` (suite 30/30 with the patch, demonstration fails with it and passes without) before it was kept.\n"own check" = reported by the check of the property the change was written against.\n')
+out.append('Produced by sub-agents that were given one property\'s text and a scratch worktree only (round 1: two changes per property, ids `Cxx-A/B`;\nround 2: three per property, ids `Cxx-A2/B2/C2`, told which mechanisms had already been tried and asked for harder ones;\nround 3: three more for C02, C05, C06 and C12 (the round-3 agents for C01 and C10 ended in tool errors and delivered nothing), ids `Cxx-A3/B3/C3`, additionally told which *kinds* of change had proved easy).\nRound 1 was run against all 18 checks, round 2 against the property\'s own check and three neighbours; all at a quarter of the quick budgets. Every change was confirmed\nwith `tools/confirm_seed.sh` (suite 30/30 with the patch, demonstration fails with it and passes without) before it was kept.\n"own check" = reported by the check of the property the change was written against.\n')
 out.append('| id | needs, in order to manifest | own check | all checks that report it |\n|---|---|---|---|')
 metas = sorted(glob.glob('seeded/*/meta.json'))
 n_own = 0
@@ -46,7 +46,11 @@ for mf in metas:
     m['caught_by'] = caught; m['caught_by_own_property_check'] = ownc; m['status'] = 'CAUGHT' if caught else 'MISSED'
     json.dump(m, open(mf, 'w'), indent=1)
     out.append(f"| {n} | {m['needs_to_manifest']} | {'yes' if ownc else 'no'} | {' '.join(caught) or '**none**'} |")
-out.append(f"\n{len(metas)} seeded changes, all reported by at least one check, {n_own} by the check of their own property. "
+n_caught = sum(1 for mf in metas if json.load(open(mf))['caught_by'])
+out.append(f"\n{len(metas)} seeded changes, {n_caught} reported by at least one check, {n_own} by the check of their own property. "
+           "**Not detected: C12-B3** (a top-up that overflows u128 is stored as a second entry instead of aborting): it needs one asset of one record to exceed u128::MAX, i.e. a total supply above 2^128 "
+           "plus a trade that refills the depositor's wallet; the simulator keeps every supply below 2^128 on purpose (so that the unchanged code's overflow abort can never be mistaken for a refused good deposit), "
+           "so this change is outside its stated bounds — recorded as a miss, not argued away. "
            "The exceptions: C05-B (receive hooks accept coins forwarded by a token-shaped contract) cannot manifest in C05's honest-token worlds by construction; "
            "it is reported by C19 (`coins_kept`) and C18 (`victim_altered … +coins`, a signature outside the known findings). C04-B (id re-use through the CW721 bucket path, then a purchase that overwrites the seller's bucket) "
            "was reported by C01 / C03 / C07 / C09 in this matrix; rule `C04.foreign_bucket_destroyed` was added afterwards (C18-B2 / C18-C2 exercise it).\n")
